@@ -60,6 +60,7 @@ ASSUME PositionalEqNamed
 ASSUME BuildAgreesWithDecl(ParamsFull)
 
 (* the pure property (no switches) - used with the faithful switches to show that TLC finds H8 *)
+PureBatchIsProcessed == Done => (Processed <=> PureProcessed)
 PureNotifSilent ==
   (Done /\ Processed) => (shape = "nothing" <=> \A i \in DOMAIN entries : IsNotification(entries[i]))
 PureStdCodes ==
